@@ -10,8 +10,20 @@ def addPart_index_guard : String := "part.Index >= ps.total"
 /-- cond types/part_set.go PartSet.AddPart -/
 def addPart_position_guard : String := "part.Proof.Index != int64(part.Index) || part.Proof.Total != int64(ps.total)"
 
+/-- const blockchain/v0/pool.go maxTotalRequesters -/
+def bc_maxTotalRequesters : Int := 600
+
+/-- cond blockchain/msgs.go ValidateMsg -/
+def bc_status_base_guard : String := "msg.Base > msg.Height"
+
+/-- has libs/bits/bit_array.go BitArray.getTrueIndices -/
+def bits_pickRandom_reads_last_elem : Bool := true
+
 /-- cond libs/bits/bit_array.go BitArray.setIndex -/
 def bits_setIndex_guard : String := "i >= bA.Bits"
+
+/-- has libs/bits/bit_array.go BitArray.Sub -/
+def bits_sub_loop_bound : Bool := true
 
 /-- cond libs/bits/bit_array.go BitArray.ValidateBasic -/
 def bits_validate_elems_guard : String := "len(bA.Elems) != expected"
@@ -136,6 +148,12 @@ def c05_execCommit_order : List String := ["execBlockOnProxyApp", "CommitSync"]
 /-- order state/execution.go execBlockOnProxyApp -/
 def c05_exec_order : List String := ["BeginBlockSync", "DeliverTxAsync", "EndBlockSync"]
 
+/-- seq state/execution.go BlockExecutor.ApplyBlock -/
+def c05_failseq_apply : List String := ["execBlockOnProxyApp", "fail.Fail", "SaveABCIResponses", "fail.Fail", "Commit", "fail.Fail", "Save", "fail.Fail"]
+
+/-- seq consensus/state.go State.finalizeCommit -/
+def c05_failseq_finalize : List String := ["fail.Fail", "SaveBlock", "fail.Fail", "WriteSync", "fail.Fail", "ApplyBlock", "fail.Fail", "updateToState", "fail.Fail"]
+
 /-- order consensus/state.go State.finalizeCommit -/
 def c05_finalize_order : List String := ["SaveBlock", "WriteSync", "ApplyBlock", "updateToState"]
 
@@ -152,10 +170,16 @@ def c05_replay_initchain_guard : String := "appBlockHeight == 0"
 def c05_replay_mock_loads_last_resp : Bool := true
 
 /-- has consensus/replay.go Handshaker.ReplayBlocks -/
-def c05_replay_store_ahead_case : Bool := false
+def c05_replay_next_is_initial_height : Bool := true
+
+/-- has consensus/replay.go Handshaker.ReplayBlocks -/
+def c05_replay_store_ahead_case : Bool := true
 
 /-- cond consensus/replay.go Handshaker.ReplayBlocks -/
 def c05_replay_store_eq_state : String := "storeBlockHeight == stateBlockHeight"
+
+/-- has consensus/replay.go Handshaker.ReplayBlocks -/
+def c05_replay_store_next_case : Bool := true
 
 /-- order mempool/v0/clist_mempool.go CListMempool.CheckTx -/
 def c05_v0_check_order : List String := ["RLock", "RUnlock", "CheckTxAsync"]
@@ -208,8 +232,23 @@ def c06_proposal_budget_vals : Bool := true
 /-- order state/validation.go validateBlock -/
 def c06_validate_order : List String := ["ValidateBasic", "HashConsensusParams", "VerifyCommit", "HasAddress", "After", "MedianTime", "ByteSize"]
 
+/-- const crypto/tmhash/hash.go TruncatedSize -/
+def c07_AddressSize : Int := 20
+
 /-- const types/validator_set.go MaxTotalVotingPower -/
 def c07_MaxTotalVotingPower : Int := 1152921504606846975
+
+/-- const types/vote_set.go MaxVotesCount -/
+def c07_MaxVotesCount : Int := 10000
+
+/-- cond types/canonical.go CanonicalizeBlockID -/
+def c07_canonical_nil_test : String := "rbid == nil || rbid.IsZero()"
+
+/-- has types/validator_set.go ValidatorSetFromProto -/
+def c07_fromProto_reads_wire_total : Bool := false
+
+/-- has types/validator_set.go ValidatorSetFromProto -/
+def c07_fromProto_recomputes_total : Bool := true
 
 /-- has types/validator_set.go ValidatorSet.VerifyCommit -/
 def c07_full_needed_two_thirds : Bool := true
@@ -319,8 +358,17 @@ def c13_v0_verify_call : Bool := true
 /-- has blockchain/v1/reactor.go BlockchainReactor.processBlock -/
 def c13_v1_verify_call : Bool := true
 
+/-- order blockchain/v2/processor.go pcState.handle -/
+def c13_v2_handle_order : List String := ["purgePeer", "nextTwo", "verifyCommit", "saveBlock", "applyBlock"]
+
+/-- has blockchain/v2/processor.go pcState.height -/
+def c13_v2_height : Bool := true
+
 /-- has blockchain/v2/processor_context.go pContext.verifyCommit -/
 def c13_v2_verify_call : Bool := true
+
+/-- const types/params.go MaxBlockSizeBytes -/
+def c14_MaxBlockSizeBytes : Int := 104857600
 
 /-- cond statesync/syncer.go syncer.AddChunk -/
 def c14_addChunk_rejected_sender_guard : String := "s.snapshots.IsPeerRejected(chunk.Sender)"
@@ -331,11 +379,23 @@ def c14_apphash_height_plus_one : Bool := true
 /-- order statesync/syncer.go syncer.applyChunks -/
 def c14_applyChunks_order : List String := ["Next", "ApplySnapshotChunkSync", "Discard", "RejectPeer", "DiscardSender", "Retry"]
 
+/-- has light/rpc/client.go Client.ConsensusParams -/
+def c14_params_hash_guard : Bool := true
+
 /-- cond statesync/chunks.go chunkQueue.Add -/
 def c14_queue_add_dup_guard : String := "q.chunkFiles[chunk.Index] != \"\""
 
 /-- const statesync/reactor.go recentSnapshots -/
 def c14_recentSnapshots : Int := 10
+
+/-- has store/store.go BlockStore.SaveSeenCommit -/
+def c14_seen_commit_synced : Bool := true
+
+/-- order node/node.go startStateSync -/
+def c14_startStateSync_order : List String := ["Sync", "SaveSeenCommit", "Bootstrap", "SwitchToFastSync", "SwitchToConsensus"]
+
+/-- has statesync/stateprovider.go lightClientStateProvider.State -/
+def c14_state_vals_from_blocks : Bool := true
 
 /-- order statesync/syncer.go syncer.Sync -/
 def c14_sync_order : List String := ["AppHash", "offerSnapshot", "State", "Commit", "applyChunks", "verifyApp"]
@@ -431,7 +491,7 @@ def c16_verify_guard : String := "!remPubKey.VerifySignature(challenge[:], remSi
 def c16_write_order : List String := ["Seal", "incrNonce", "Write"]
 
 /-- order consensus/state.go State.finalizeCommit -/
-def c18_finalizeCommit_order : List String := ["SaveBlock", "ApplyBlock", "pruneBlocks"]
+def c18_finalizeCommit_order : List String := ["ValidateBlock", "SaveBlock", "ApplyBlock", "pruneBlocks"]
 
 /-- order consensus/state.go State.pruneBlocks -/
 def c18_pruneBlocks_glue_order : List String := ["PruneBlocks", "PruneStates"]
@@ -547,6 +607,9 @@ def cons_newValidBlock_validates_bits : Bool := true
 /-- has consensus/reactor.go ProposalPOLMessage.ValidateBasic -/
 def cons_proposalPOL_validates_bits : Bool := true
 
+/-- cond consensus/reactor.go ProposalMessage.ValidateBasic -/
+def cons_proposal_bounds_part_count : String := "m.Proposal.BlockID.PartSetHeader.Total > types.MaxBlockPartsCount"
+
 /-- has consensus/reactor.go Reactor.ReceiveEnvelope -/
 def cons_receive_any_deferred_unlock : Bool := false
 
@@ -561,6 +624,9 @@ def cons_voteSetBits_validates_bits : Bool := true
 
 /-- order consensus/state.go State.defaultDecideProposal -/
 def cs_proposal_flush_first : List String := ["FlushAndSync", "SignProposal"]
+
+/-- has consensus/state.go State.defaultDecideProposal -/
+def cs_proposal_keeps_signed_timestamp : Bool := true
 
 /-- order consensus/state.go State.signVote -/
 def cs_signVote_flush_first : List String := ["FlushAndSync", "SignVote"]
@@ -643,6 +709,12 @@ def mempoolV1_victim : String := "cw.priority < priority"
 /-- const crypto/merkle/proof.go MaxAunts -/
 def merkle_MaxAunts : Int := 100
 
+/-- const p2p/pex/pex_reactor.go maxAddressSize -/
+def pex_maxAddressSize : Int := 256
+
+/-- const p2p/pex/params.go maxGetSelection -/
+def pex_maxGetSelection : Int := 250
+
 /-- const proto/tendermint/types/types.pb.go PrecommitType -/
 def pv_PrecommitType : Int := 2
 
@@ -688,12 +760,15 @@ def pv_stepPropose : Int := 1
 /-- has privval/file.go FilePV.signVote -/
 def pv_vote_persist_before_release : Bool := true
 
+/-- cond statesync/chunks.go chunkQueue.Add -/
+def ss_chunk_index_guard : String := "chunk.Index >= q.snapshot.Chunks"
+
 /-- const types/params.go MaxBlockPartsCount -/
 def types_MaxBlockPartsCount : Int := 1601
 
 /-- const types/vote_set.go MaxVotesCount -/
 def types_MaxVotesCount : Int := 10000
 
-def factCount : Nat := 231
+def factCount : Nat := 256
 
 end Tmv.Facts
